@@ -1019,6 +1019,23 @@ func (x *c21Run) stageAndSupply(src, dst string) stepOutcome {
 	if ferrs[0] != nil {
 		return stepOutcome{kind: "stage", class: class + ",receive-error", fatal: true}
 	}
+	// Barrier: the remote receiver only encodes and flushes; the server writes
+	// the staged files while it drains that stream, asynchronously to the
+	// client. Before the harness touches the disk again (the local receiver
+	// finished synchronously) it makes a round trip on the same connection: a
+	// Poll with an already cancelled context, which the server answers only
+	// after serveStage has returned. Poll's result is compared as well.
+	cctx, cancel := context.WithCancel(context.Background())
+	cancel()
+	var perrs [2]error
+	for i, s := range x.sides() {
+		perrs[i] = s.ep[dst].Poll(cctx)
+	}
+	x.r.Count("polls", 1)
+	if (perrs[0] == nil) != (perrs[1] == nil) {
+		x.violation("error-mismatch", "Poll", fmt.Sprintf("local error %s, remote error %s", errText(perrs[0]), errText(perrs[1])), nil)
+		return stepOutcome{kind: "stage", fatal: true}
+	}
 	return stepOutcome{kind: "stage", class: class + "," + out.class}
 }
 
@@ -1596,6 +1613,7 @@ func c21() {
 	r.Assume("the order of transition problems is compared as a multiset (core.Transition walks Go maps; the order is unspecified); error texts are compared for presence only, problem/transmission/entry error texts after replacing the per-side root directory and session identifier")
 	r.Assume("Stage is not issued while the destination changed since its last scan and a requested digest has two or more holders in the destination's cache: local.Stage picks its in-root source through a digest->path map built in Go map order, so the required subset is not a function of the inputs there (the monitor rescans first)")
 	r.Assume("FIFOs are created only under names that never carry a file on the other root: local.Stage and rsync.Transmit open files without O_NONBLOCK and block forever on a FIFO (observed; not a local/remote difference)")
+	r.Assume("the remote staging receiver is asynchronous (the server stores files while draining the stream); the monitor waits for it with a Poll round trip before editing the disk again, as the next controller call would")
 	r.Assume("a Stage or Supply error ends the remote server by design, so a program stops at the first such (equal on both sides) error")
 	r.Finish("random programs of Scan(full?)/Stage+Supply/Supply probes/Transition/disk edits (incl. empty roots, root kind changes, bulk directories of 300-1800 files, stale plans, wrong digests, missing sources, entry-count and staging-size limits) run identically against a local endpoint and a remote endpoint (client<->server over a randomly fragmenting in-memory pipe, compression none/deflate/default); distinct = (operation, outcome class, compression) of steps whose returned values were compared equal", 25)
 }
